@@ -1,12 +1,27 @@
 #!/bin/bash
-# Doctest names in BASELINE.json carry line numbers: a fix must not move lines above a doctest.
-# Lists files changed since the pinned commit whose first changed line precedes a doctest.
+# Doctest names in BASELINE.json carry line numbers: a change must not move lines above a doctest
+# that is in the stable_pass list. Lists changed files whose first changed line precedes such a doctest.
 cd /repo || exit 2
 BASE=${1:-258d8c92}
-bad=0
-for f in $(git diff --name-only $BASE HEAD -- '*.rs'; git diff --name-only -- '*.rs'); do
-  first=$(git diff -U0 $BASE -- $f | grep -m1 "^@@" | sed 's/@@ -\([0-9]*\).*/\1/')
-  last_doc=$(grep -n '/// ```\|//! ```' $f | tail -1 | cut -d: -f1)
-  if [ -n "$last_doc" ] && [ -n "$first" ] && [ "$first" -lt "$last_doc" ]; then echo "SHIFT-RISK $f first_change=$first last_doctest_line=$last_doc"; bad=1; fi
-done
-exit $bad
+python3 - "$BASE" <<'PY'
+import json, re, subprocess, sys
+base = sys.argv[1]
+stable = json.load(open('/root/.vp/BASELINE.json'))['stable_pass']
+doc = {}
+for s in stable:
+    m = re.match(r'doctest:[^:]+::(\S+) - .*\(line (\d+)\)', s)
+    if m:
+        doc.setdefault(m.group(1), []).append(int(m.group(2)))
+files = set(subprocess.run(['git','diff','--name-only',base,'--','*.rs'],capture_output=True,text=True).stdout.split())
+bad = 0
+for f in sorted(files):
+    if f not in doc: continue
+    d = subprocess.run(['git','diff','-U0',base,'--',f],capture_output=True,text=True).stdout
+    m = re.search(r'^@@ -(\d+)', d, re.M)
+    if not m: continue
+    first = int(m.group(1)); last = max(doc[f])
+    if first < last:
+        print(f"SHIFT-RISK {f} first_change={first} last_stable_doctest_line={last}"); bad = 1
+print("doctest guard:", "RISK" if bad else "ok", f"({len(files)} changed files, {sum(1 for f in files if f in doc)} with stable doctests)")
+sys.exit(bad)
+PY
